@@ -188,6 +188,79 @@ def collisions(rep) -> None:
         rmtree(d)
 
 
+def _resolve(doc, node):
+    seen = 0
+    while isinstance(node, dict) and isinstance(node.get("$ref"), str) and node["$ref"].startswith("#/") and seen < 8:
+        cur = doc
+        for part in node["$ref"][2:].split("/"):
+            cur = cur.get(part) if isinstance(cur, dict) else None
+        node, seen = cur, seen + 1
+    return node if isinstance(node, dict) else {}
+
+
+def generic_census(rep, name: str, doc: dict, d) -> None:
+    """Census on an ARBITRARY document: every component schema that describes an object or an enumeration, every operation, every
+    documented status, every request media type and every parameter is either visible in the generated tree or named in a diagnostic."""
+    import re as _re
+
+    from openapi_python_client import utils
+    out = d / ("census-" + "".join(ch if ch.isalnum() else "_" for ch in name))
+    g = gen.generate(doc, out)
+    if g["exc"] or g["rejected"]:
+        rep.violate(f"C07/census/{name}/not-generated", f"{name}: {(g['exc'] or str(g['diags'][:1]))[-200:]}")
+        return
+    texts = "\n".join(x["header"] + "\n" + x["detail"] for x in g["diags"])
+    tree = {k: v.decode(errors="replace") for k, v in gen.snapshot(out, content=True).items() if k.endswith(".py") and isinstance(v, bytes)}
+    models = "\n".join(v for k, v in tree.items() if k.startswith("models/"))
+    for n, sch in (doc.get("components", {}).get("schemas") or {}).items():
+        if not isinstance(sch, dict):
+            continue
+        is_enum = isinstance(sch.get("enum"), list) and any(v is not None for v in sch["enum"])
+        is_model = (sch.get("type") == "object" or "properties" in sch or (isinstance(sch.get("allOf"), list) and len(sch["allOf"]) > 1)) and not sch.get("oneOf") and not sch.get("anyOf")
+        if not (is_enum or is_model):
+            continue
+        cls = str(utils.ClassName(sch.get("title") or n, ""))         # a component's class is named after its title when it has one
+        rep.count(1, ("census-schema", name, n))
+        if not _re.search(rf"^(class {cls}\b|{cls} = Literal)", models, _re.M) and n not in texts:
+            rep.violate(f"C07/census/{name}/schema-unaccounted/{n}", f"{name}: component schema {n} has neither a class {cls} nor a diagnostic naming it")
+    api = {k: v for k, v in tree.items() if k.startswith("api/") and not k.endswith("__init__.py")}
+    for path, item in (doc.get("paths") or {}).items():
+        if not isinstance(item, dict):
+            continue
+        for method, op in item.items():
+            if method not in ("get", "put", "post", "delete", "options", "head", "patch", "trace") or not isinstance(op, dict):
+                continue
+            pat = _re.compile(r'"url": "' + _re.sub(r"\\\{[^}]*\\\}", r"\\{[^}]*\\}", _re.escape(path)) + r'"')
+            mods = [v for v in api.values() if pat.search(v) and f'"method": "{method}"' in v]
+            label = f"{method.upper()} {path}"
+            rep.count(1, ("census-op", name, label))
+            if not mods:
+                if label not in texts:
+                    rep.violate(f"C07/census/{name}/operation-unaccounted/{label}", f"{name}: {label} has neither an endpoint module nor a diagnostic naming it")
+                continue
+            mod = mods[0]
+            named = label in texts
+            for status in (op.get("responses") or {}):
+                ok = (str(status).isdigit() and f"response.status_code == {int(status)}" in mod) or (named and f"status code {status}" in texts) or (named and str(status) in texts)
+                if not ok:
+                    rep.violate(f"C07/census/{name}/status-unaccounted/{label}/{status}", f"{name}: {label}: documented status {status} has no branch and is not named in a warning")
+            body = _resolve(doc, op.get("requestBody") or {})
+            for media in (body.get("content") or {}):
+                mt = media.split(";")[0].strip()
+                ok = media in mod or (mt == "multipart/form-data" and '_kwargs["files"]' in mod) or media in texts
+                if not ok:
+                    rep.violate(f"C07/census/{name}/media-type-unaccounted/{label}/{mt}", f"{name}: {label}: request media type {media} is neither sent by a body variant nor named in a warning")
+            params = [_resolve(doc, p) for p in (item.get("parameters") or []) + (op.get("parameters") or [])]
+            for prm in params:
+                pn, loc = prm.get("name"), prm.get("in")
+                if not isinstance(pn, str) or loc not in ("query", "header", "cookie", "path"):
+                    continue
+                py = str(utils.PythonIdentifier(pn, "field_"))
+                ok = _re.search(rf"\b{_re.escape(py)}\w*\b", mod) or f'"{pn}"' in mod or (named and pn in texts)      # a model-typed query parameter is exploded: only its python name shows
+                if not ok:
+                    rep.violate(f"C07/census/{name}/parameter-unaccounted/{label}/{loc}:{pn}", f"{name}: {label}: {loc} parameter {pn} is neither sent nor named in a warning")
+
+
 def run(rep) -> None:
     quick = rep.tier == "quick"
     rnd = random.Random(seed() * 1013 + 7)
@@ -228,6 +301,15 @@ def run(rep) -> None:
         sops += rnd.sample(ocases, 40 if quick else 1500)
         rendered_census(rep, sdocs, sops, d)
         collisions(rep)
+        from .. import zoo
+        from . import C05 as c05
+        from . import C12 as c12
+        gdocs = {"zoo": zoo.zoo_clean(), "zoo-warn": zoo.zoo_warn(), "maximal": c05.maximal_document(), **{k: v for k, v in c12.rich_documents().items() if k not in ("zoo", "zoo-warn")}}
+        for gname, gdoc in gdocs.items():
+            if quick and gname.startswith(("baseline_openapi_3.1", "literal_enums")):
+                continue
+            generic_census(rep, gname, gdoc, d)
+        rep.extra["generic_census_documents"] = sorted(gdocs)
         docs = [(pipe.concretize(c["doc"]), c["doc"]) for c in rnd.sample(cases, 400 if quick else 4000)]
         docs += [(pipe.concretize(a), a) for a in pipe.random_adocs(rnd, 300 if quick else 3000)]
         pipe.trace_batch(rep, docs, d, "C07", _law_key)
